@@ -235,8 +235,9 @@ Qed.
 
 Section Heap.
   Variable k : klass.
+  Variable inh : option bool.
   Variables pre post : list (pystr * pyval).
-  Notation h := (klass_heap k pre post).
+  Notation h := (klass_heap k inh pre post).
 
   Lemma getattr_ref (hh : heap) n a :
     obj_getattr hh (ref n) a = match hh n a with Some v => Ok v | None => Raise AttributeError end.
@@ -270,14 +271,35 @@ Section Heap.
   Lemma strip_fld n : strip_prefix fld_prefix (fld_obj n) = Some n.
   Proof. reflexivity. Qed.
 
-  Lemma heap_default n :
-    obj_getattr h (fld_ref n) (s2p "_default") =
-    match alist_get (k_all k) n with
-    | Some (MField f) => Ok (default_view (fo_default f))
-    | _ => Raise AttributeError
-    end.
+  (* hasattr(clazz, "_ignore_none") / clazz._ignore_none: the own or the inherited setting *)
+  Lemma heap_has_ignore :
+    obj_hasattr h (ref o_clazz) (s2p "_ignore_none") =
+    Ok (match effective_ignore_none inh k with Some _ => true | None => false end).
   Proof.
-    unfold fld_ref. rewrite getattr_ref.
+    unfold obj_hasattr, ref. change (pystr_eqb ref_tag ref_tag) with true. cbv iota.
+    change (h o_clazz (s2p "_ignore_none")) with
+      (match effective_ignore_none inh k with Some b => Some (PBool b) | None => None end).
+    destruct (effective_ignore_none inh k); reflexivity.
+  Qed.
+
+  Lemma heap_get_ignore b :
+    effective_ignore_none inh k = Some b -> obj_getattr h (ref o_clazz) (s2p "_ignore_none") = Ok (PBool b).
+  Proof.
+    intro H. rewrite getattr_ref.
+    change (h o_clazz (s2p "_ignore_none")) with
+      (match effective_ignore_none inh k with Some b => Some (PBool b) | None => None end).
+    rewrite H. reflexivity.
+  Qed.
+
+  (* getattr(v, "_default", None): a Constant has no _default *)
+  Lemma heap_default n :
+    obj_getattr_def h (fld_ref n) (s2p "_default") PNone =
+    Ok (match alist_get (k_all k) n with
+        | Some (MField f) => default_view (fo_default f)
+        | _ => PNone
+        end).
+  Proof.
+    unfold fld_ref. rewrite getattr_def_ref.
     change (h (fld_obj n) (s2p "_default")) with
       (match alist_get (k_all k) n with Some (MField f) => Some (default_view (fo_default f)) | _ => None end).
     destruct (alist_get (k_all k) n) as [[f|v]|]; reflexivity.
@@ -303,7 +325,7 @@ Definition copy_step (acc : list (pystr * pyval)) (p : pystr * pyval) : list (py
   if str_in (fst p) included_attrs then alist_set acc (fst p) (snd p) else acc.
 
 Lemma include_set :
-  py_set_display [PStr (s2p "_fields"); PStr (s2p "_ignore_none"); PStr (s2p "_defaults")] =
+  py_set_display [PStr (s2p "_fields"); PStr (s2p "_defaults")] =
   Ok (PSet false (map PStr included_attrs)).
 Proof. reflexivity. Qed.
 
@@ -318,24 +340,34 @@ Proof.
 Qed.
 
 Lemma copy_core k : fold_left copy_step (own_core k) [] = own_core k.
-Proof. unfold own_core. destruct (k_ignore_none k); reflexivity. Qed.
+Proof. reflexivity. Qed.
+
+Lemma core_no_ignore k : alist_has (own_core k) n_ignore_none = false.
+Proof. reflexivity. Qed.
 
 Section Common.
   Variable k : klass.
+  Variable inh : option bool.
   Variables pre post : list (pystr * pyval).
   Hypothesis Hpre : others_ok pre = true.
   Hypothesis Hpost : others_ok post = true.
-  Notation h := (klass_heap k pre post).
+  Notation h := (klass_heap k inh pre post).
+  Notation ign := (effective_ignore_none inh k).
 
-  (* _init_class_dict(clazz): exactly "_fields" and (when the class body set it) "_ignore_none" *)
-  Lemma init_class_dict_src : init_class_dict h (ref o_clazz) = Ok (dict_of (own_core k)).
+  (* _init_class_dict(clazz): exactly "_fields", and "_ignore_none" when the class has the attribute -- set by
+     its own body or inherited *)
+  Lemma init_class_dict_src : init_class_dict h (ref o_clazz) = Ok (dict_of (init_core k ign)).
   Proof.
     unfold init_class_dict. rewrite include_set. cbn [bind]. rewrite heap_dict. cbn [bind].
     rewrite items_dict. cbn [bind]. change (PDict []) with (dict_of []).
     rewrite (foldM_items _ (fun acc p => Ok (copy_step acc p))).
     - rewrite afoldM_ok. cbn [bind]. unfold own_dict. rewrite !fold_left_app.
       rewrite (copy_others pre) by exact Hpre. rewrite copy_core. rewrite (copy_others post) by exact Hpost.
-      reflexivity.
+      rewrite heap_has_ignore. unfold init_core. destruct ign as [b|] eqn:Ei; cbn [bind].
+      + rewrite (heap_get_ignore k inh pre post b Ei). cbn [bind].
+        change (PStr (s2p "_ignore_none")) with (PStr n_ignore_none). rewrite setitem_dict. cbn [bind].
+        rewrite (alist_set_fresh _ _ _ (core_no_ignore k)). reflexivity.
+      + rewrite app_nil_r. reflexivity.
     - intros acc [n v] _. unfold item_of. cbn [fst snd py_unpack py_iter_items bind length Nat.eqb].
       rewrite in_included. cbn [bind]. unfold copy_step. cbn [fst snd].
       destruct (str_in n included_attrs); [rewrite setitem_dict|]; reflexivity.
@@ -369,10 +401,10 @@ Proof.
   rewrite (pystr_eqb_sym n_required), (pystr_eqb_sym n_ignore_none), (pystr_eqb_sym n_fields). auto.
 Qed.
 
-Lemma core_fresh k n : reserved n = false -> alist_has (own_core k) n = false.
+Lemma core_fresh k ign n : reserved n = false -> alist_has (init_core k ign) n = false.
 Proof.
-  intro H. apply reserved_spec in H as [_ [H2 H3]]. unfold own_core, alist_has.
-  destruct (k_ignore_none k); cbn [alist_get]; rewrite H3, ?H2; reflexivity.
+  intro H. apply reserved_spec in H as [_ [H2 H3]]. unfold init_core, own_core, alist_has.
+  destruct ign; cbn [app alist_get]; rewrite H3, ?H2; reflexivity.
 Qed.
 
 Lemma src_ok_spec k :
@@ -439,19 +471,19 @@ Lemma decode_newclass_eq k name entries :
   (d <- decode_entries k (skeys entries) ;; Ok (stmt_of name d)).
 Proof. reflexivity. Qed.
 
-Lemma stmt_of_eq name d k ms req :
-  dc_members d = ms -> dc_required d = Some req -> dc_ignore d = k_ignore_none k ->
-  stmt_of name d = derived_stmt name k ms req.
+Lemma stmt_of_eq name d ign ms req :
+  dc_members d = ms -> dc_required d = Some req -> dc_ignore d = ign ->
+  stmt_of name d = derived_stmt name ign ms req.
 Proof. intros H1 H2 H3. unfold stmt_of, derived_stmt. rewrite H1, H2, H3. reflexivity. Qed.
 
 Definition with_ignore (o : option bool) (d : dec) : dec :=
   match o with Some b => dec_set_ignore b d | None => d end.
 
-Lemma decode_core k rest :
-  decode_entries k (skeys (own_core k ++ rest)) =
-  (r <- decode_entries k (skeys rest) ;; Ok (with_ignore (k_ignore_none k) r)).
+Lemma decode_core k ign rest :
+  decode_entries k (skeys (init_core k ign ++ rest)) =
+  (r <- decode_entries k (skeys rest) ;; Ok (with_ignore ign r)).
 Proof.
-  unfold own_core, with_ignore. destruct (k_ignore_none k) as [b|];
+  unfold init_core, own_core, with_ignore. destruct ign as [b|];
     cbn [app skeys map fst snd decode_entries];
     change (pystr_eqb n_fields n_required) with false; change (pystr_eqb n_fields n_ignore_none) with false;
     change (pystr_eqb n_fields n_fields) with true;
@@ -525,8 +557,8 @@ Proof.
   rewrite H. f_equal. apply filter_all. apply forallb_forall. reflexivity.
 Qed.
 
-Lemma core_no_required k : alist_has (own_core k) n_required = false.
-Proof. unfold own_core. destruct (k_ignore_none k); reflexivity. Qed.
+Lemma core_no_required k ign : alist_has (init_core k ign) n_required = false.
+Proof. unfold init_core, own_core. destruct ign; reflexivity. Qed.
 
 Lemma flds_no_required ns : (forall n, In n ns -> reserved n = false) -> alist_has (fld_entries ns) n_required = false.
 Proof.
@@ -534,9 +566,9 @@ Proof.
   apply alist_has_In in E. rewrite fld_entries_names in E. apply H in E. discriminate.
 Qed.
 
-Lemma core_req_fresh k x n : reserved n = false -> alist_has (own_core k ++ [(n_required, x)]) n = false.
+Lemma core_req_fresh k ign x n : reserved n = false -> alist_has (init_core k ign ++ [(n_required, x)]) n = false.
 Proof.
-  intro H. rewrite alist_has_app, (core_fresh k n H). destruct (reserved_spec n H) as [H1 _].
+  intro H. rewrite alist_has_app, (core_fresh k ign n H). destruct (reserved_spec n H) as [H1 _].
   unfold alist_has. cbn [alist_get orb]. rewrite H1. reflexivity.
 Qed.
 
@@ -556,16 +588,16 @@ Proof. destruct b; reflexivity. Qed.
 (* ------------------------------------------------------------------ the loop of AllFieldsRequired *)
 
 Definition allreq_step (k : klass) (acc : list (pystr * pyval)) (p : pystr * pyval) : res (list (pystr * pyval)) :=
-  match alist_get (k_all k) (fst p) with
-  | Some (MField fo) =>
-      let acc1 := alist_set acc (fst p) (snd p) in
-      if py_is_none (default_view (fo_default fo)) then
-        l0 <- match alist_get acc1 n_required with Some x => Ok x | None => Raise KeyError end ;;
-        l1 <- py_list_append l0 (PStr (fst p)) ;;
-        Ok (alist_set acc1 n_required l1)
-      else Ok acc1
-  | _ => Raise AttributeError
-  end.
+  let d := match alist_get (k_all k) (fst p) with
+           | Some (MField fo) => default_view (fo_default fo)
+           | _ => PNone
+           end in
+  let acc1 := alist_set acc (fst p) (snd p) in
+  if py_is_none d then
+    l0 <- match alist_get acc1 n_required with Some x => Ok x | None => Raise KeyError end ;;
+    l1 <- py_list_append l0 (PStr (fst p)) ;;
+    Ok (alist_set acc1 n_required l1)
+  else Ok acc1.
 
 Lemma allreq_afold k : forall (ms : members) A seed B,
   (forall nm, In nm ms -> alist_get (k_all k) (fst nm) = Some (snd nm)) ->
@@ -578,10 +610,10 @@ Lemma allreq_afold k : forall (ms : members) A seed B,
                      | MConst _ => true
                      end) ms = true ->
   afoldM (allreq_step k) (fld_entries (map fst ms)) (A ++ (n_required, dv_names seed) :: B) =
-  (r <- all_required_seed ms ;; Ok (A ++ (n_required, dv_names (seed ++ r)) :: B ++ fld_entries (map fst ms))).
+  Ok (A ++ (n_required, dv_names (seed ++ all_required_seed ms)) :: B ++ fld_entries (map fst ms)).
 Proof.
   induction ms as [|[n m] t IH]; intros A seed B Hget Hnd Hfr HA Hnorm.
-  - cbn [map fld_entries afoldM all_required_seed bind]. rewrite !app_nil_r. reflexivity.
+  - cbn [map fld_entries afoldM all_required_seed]. rewrite !app_nil_r. reflexivity.
   - cbn [map fst fld_entries afoldM]. fold (fld_entries (map fst t)).
     unfold allreq_step at 1. cbn [fst snd].
     pose proof (Hget (n, m) (or_introl eq_refl)) as Hm. cbn [fst snd] in Hm. rewrite Hm.
@@ -597,18 +629,17 @@ Proof.
       destruct (pystr_eqb n x) eqn:E; [|reflexivity]. apply pystr_eqb_spec in E; subst. contradiction. }
     assert (Hget' : forall nm, In nm t -> alist_get (k_all k) (fst nm) = Some (snd nm)).
     { intros nm Hin. apply Hget. right. exact Hin. }
-    destruct m as [fo|c]; [|reflexivity].
     rewrite (alist_set_fresh _ _ _ Hfresh). rewrite <- app_assoc. cbn [app].
     cbn [all_required_seed].
-    destruct (fo_default fo) as [d|] eqn:Hd.
-    + assert (Hnn : py_is_none (default_view (Some d)) = false).
-      { destruct d as [v|v]; [|reflexivity]. destruct v; try reflexivity. discriminate. }
-      rewrite Hnn. cbn [afoldM bind].
+    assert (Hd : py_is_none (match m with MField fo => default_view (fo_default fo) | MConst _ => PNone end) =
+                 negb (has_default m)).
+    { destruct m as [fo|c]; [|reflexivity]. cbn [has_default]. destruct (fo_default fo) as [d|]; [|reflexivity].
+      destruct d as [v|v]; [|reflexivity]. destruct v; try reflexivity. discriminate. }
+    rewrite Hd. destruct (has_default m); cbn [negb].
+    + cbn [afoldM bind].
       rewrite (IH A seed (B ++ [(n, fld_ref n)]) Hget' Hnd' Hfr' HA Hnorm).
-      destruct (all_required_seed t) as [r|x]; cbn [bind]; [|reflexivity].
       rewrite <- app_assoc. reflexivity.
-    + cbn [default_view py_is_none].
-      assert (Hreq : alist_get (A ++ (n_required, dv_names seed) :: B ++ [(n, fld_ref n)]) n_required = Some (dv_names seed)).
+    + assert (Hreq : alist_get (A ++ (n_required, dv_names seed) :: B ++ [(n, fld_ref n)]) n_required = Some (dv_names seed)).
       { rewrite alist_get_app. unfold alist_has in HA. destruct (alist_get A n_required); [discriminate|].
         cbn [alist_get]. rewrite pystr_eqb_refl. reflexivity. }
       rewrite Hreq. cbn [bind dv_names py_list_append].
@@ -616,7 +647,6 @@ Proof.
       change (PList (map PStr seed ++ [PStr n])) with (PList (map PStr seed ++ map PStr [n])).
       rewrite <- map_app. fold (dv_names (seed ++ [n])). cbn [afoldM bind].
       rewrite (IH A (seed ++ [n]) (B ++ [(n, fld_ref n)]) Hget' Hnd' Hfr' HA Hnorm).
-      destruct (all_required_seed t) as [r|x]; cbn [bind]; [|reflexivity].
       rewrite <- !app_assoc. reflexivity.
 Qed.
 
@@ -636,11 +666,13 @@ Qed.
 
 Section Operators.
   Variable k : klass.
+  Variable inh : option bool.
   Variables pre post : list (pystr * pyval).
   Hypothesis Hpre : others_ok pre = true.
   Hypothesis Hpost : others_ok post = true.
   Hypothesis Hsrc : src_ok k = true.
-  Notation h := (klass_heap k pre post).
+  Notation h := (klass_heap k inh pre post).
+  Notation ign := (effective_ignore_none inh k).
 
   Ltac guard_steps Hs :=
     repeat (progress (
@@ -650,16 +682,16 @@ Section Operators.
 
   Ltac finish_stmt Hnd :=
     cbn [skeys map decode_entries bind derive_stmt derived_name op_prefix]; f_equal; apply stmt_of_eq; unfold with_ignore;
-    [ destruct (k_ignore_none k); cbn [dec_set_ignore dec_set_required dc_members];
+    [ destruct ign; cbn [dec_set_ignore dec_set_required dc_members];
       rewrite ?dc_members_fold; cbn [dec_set_ignore dec_set_required dc_members dec_empty]; rewrite ?app_nil_r
-    | destruct (k_ignore_none k); cbn [dec_set_ignore dec_set_required dc_required];
+    | destruct ign; cbn [dec_set_ignore dec_set_required dc_required];
       rewrite ?dc_required_fold; reflexivity
-    | destruct (k_ignore_none k); cbn [dec_set_ignore dec_set_required dc_ignore];
+    | destruct ign; cbn [dec_set_ignore dec_set_required dc_ignore];
       rewrite ?dc_ignore_fold; reflexivity ].
 
   (* the common beginning of every operator body: _init_class_dict, then the loop over the field objects *)
   Ltac start_body :=
-    rewrite (init_class_dict_src k pre post Hpre Hpost); cbn [bind].
+    rewrite (init_class_dict_src k inh pre post Hpre Hpost); cbn [bind].
 
   Ltac unpack_item :=
     unfold item_of; cbn [fst snd py_unpack py_iter_items bind length Nat.eqb].
@@ -684,7 +716,7 @@ Section Operators.
 
   Theorem Partial_src_is_model : forall cname,
       (x <- PartialMeta_getitem h (op_class OpPartial) (class_arg cname) ;; decode_newclass k x) =
-      derive_stmt k OpPartial cname.
+      derive_stmt inh k OpPartial cname.
   Proof.
     intro cname. destruct (src_ok_spec k Hsrc) as [Hs [Hnd Hres]].
     unfold PartialMeta_getitem. destruct cname as [n|]; unfold class_arg.
@@ -701,7 +733,7 @@ Section Operators.
     start_body;
     rewrite heap_required_def; cbn [bind];
     change (PStr (s2p "_required")) with (PStr n_required);
-    rewrite setitem_dict; cbn [bind]; rewrite (alist_set_fresh _ _ _ (core_no_required k));
+    rewrite setitem_dict; cbn [bind]; rewrite (alist_set_fresh _ _ _ (core_no_required k ign));
     rewrite get_all_fields_src; cbn [bind]; rewrite items_dict; cbn [bind];
     rewrite (foldM_items _ (fun acc p => Ok (alist_set acc (fst p) (snd p))));
     [| intros acc [n' v'] _; unpack_item; rewrite setitem_dict; reflexivity ];
@@ -716,7 +748,7 @@ Section Operators.
 
   Theorem Extend_src_is_model : forall cname,
       (x <- ExtendMeta_getitem h (op_class OpExtend) (class_arg cname) ;; decode_newclass k x) =
-      derive_stmt k OpExtend cname.
+      derive_stmt inh k OpExtend cname.
   Proof.
     intro cname. destruct (src_ok_spec k Hsrc) as [Hs [Hnd Hres]].
     unfold ExtendMeta_getitem. destruct cname as [n|]; unfold class_arg.
@@ -729,7 +761,7 @@ Section Operators.
   Qed.
 
   (* AllFieldsRequired[Foo] / [Foo, "Name"]: _required = [] first, then every field object, its name appended
-     to _required when its _default is None; a Constant has no _default: AttributeError *)
+     to _required when its getattr(v, "_default", None) is None (a Constant has no _default) *)
   Hypothesis Hnorm : defaults_normal k = true.
 
   Ltac allreq_loop_step :=
@@ -737,9 +769,7 @@ Section Operators.
     let n := fresh "n" in let m := fresh "m" in let Hp := fresh "Hp" in
     intros acc p Hin; unfold field_by_name in Hin; apply in_map_iff in Hin as [[n m] [Hp _]]; subst p;
     cbn [fst snd]; unpack_item; rewrite setitem_dict; cbn [bind]; rewrite heap_default;
-    unfold allreq_step; cbn [fst snd];
-    destruct (alist_get (k_all k) n) as [[?fo|?c]|]; [|reflexivity|reflexivity];
-    cbn [bind];
+    unfold allreq_step; cbn [fst snd bind];
     match goal with |- context [py_is_none ?d] => destruct (py_is_none d); [|reflexivity] end;
     change (PStr (s2p "_required")) with (PStr n_required); rewrite subscript_dict;
     match goal with |- context [alist_get ?a n_required] => destruct (alist_get a n_required) as [?x|]; [|reflexivity] end;
@@ -750,18 +780,17 @@ Section Operators.
   Ltac allreq_body Hnd Hres :=
     start_body;
     change (PStr (s2p "_required")) with (PStr n_required); change (PList []) with (dv_names []);
-    rewrite setitem_dict; cbn [bind]; rewrite (alist_set_fresh _ _ _ (core_no_required k));
+    rewrite setitem_dict; cbn [bind]; rewrite (alist_set_fresh _ _ _ (core_no_required k ign));
     rewrite get_all_fields_src; cbn [bind]; rewrite items_dict; cbn [bind];
     rewrite (foldM_items _ (allreq_step k)); [| allreq_loop_step ];
     rewrite field_by_name_entries; unfold field_names; cbn [app];
-    rewrite (allreq_afold k (k_all k) (own_core k) [] []);
+    rewrite (allreq_afold k (k_all k) (init_core k ign) [] []);
     [| intros [n' m'] Hin'; cbn [fst snd]; apply (In_alist_get_NoDup _ _ _ Hnd Hin')
      | exact Hnd
      | intros n' Hn'; split; [apply core_fresh; apply Hres; exact Hn' | split; [reflexivity | apply (reserved_spec n' (Hres n' Hn'))]]
      | apply core_no_required
      | exact Hnorm ];
-    fold (field_names k); cbn [derive_stmt];
-    destruct (all_required_seed (k_all k)) as [r|e]; cbn [bind app]; [|reflexivity];
+    fold (field_names k); cbn [derive_stmt bind app];
     rewrite decode_newclass_eq;
     rewrite decode_core, decode_required, decode_flds_end;
     [| exact Hres | intros n' Hn'; apply alist_has_In; exact Hn' ];
@@ -769,7 +798,7 @@ Section Operators.
 
   Theorem AllFieldsRequired_src_is_model : forall cname,
       (x <- AllFieldsRequiredMeta_getitem h (op_class OpAllRequired) (class_arg cname) ;; decode_newclass k x) =
-      derive_stmt k OpAllRequired cname.
+      derive_stmt inh k OpAllRequired cname.
   Proof.
     intro cname. destruct (src_ok_spec k Hsrc) as [Hs [Hnd Hres]].
     unfold AllFieldsRequiredMeta_getitem. destruct cname as [n|]; unfold class_arg.
@@ -788,13 +817,13 @@ Section Operators.
 
   Definition omit_model (ns : list pystr) (name : pystr) : res classstmt :=
     if forallb (fun n => alist_has (k_all k) n) ns
-    then Ok (derived_stmt name k (filter (fun nm => negb (str_in (fst nm) ns)) (k_all k))
+    then Ok (derived_stmt name ign (filter (fun nm => negb (str_in (fst nm) ns)) (k_all k))
                           (filter (fun x => negb (str_in x ns)) (k_required k)))
     else Raise TypeError.
 
   Definition pick_model (ns : list pystr) (name : pystr) : res classstmt :=
     if forallb (fun n => alist_has (k_all k) n) ns
-    then Ok (derived_stmt name k (pick_members (k_all k) ns) (filter (fun x => str_in x ns) (k_required k)))
+    then Ok (derived_stmt name ign (pick_members (k_all k) ns) (filter (fun x => str_in x ns) (k_required k)))
     else Raise TypeError.
 
   Lemma filter_fields_sub (p : pystr -> bool) :
@@ -816,7 +845,7 @@ Section Operators.
     2: { intro n. rewrite py_in_tuple. reflexivity. }
     cbn [bind]. change (PStr (s2p "_required")) with (PStr n_required).
     match goal with |- context [PList (map PStr ?l)] => change (PList (map PStr l)) with (dv_names l) end.
-    rewrite setitem_dict. cbn [bind]. rewrite (alist_set_fresh _ _ _ (core_no_required k)).
+    rewrite setitem_dict. cbn [bind]. rewrite (alist_set_fresh _ _ _ (core_no_required k ign)).
     rewrite (foldM_check _ (fun n => alist_has (k_all k) n) TypeError).
     2: { intro n. rewrite get_all_fields_src. cbn [bind]. rewrite in_dict, fbn_has. cbn [py_not bind].
          destruct (alist_has (k_all k) n); reflexivity. }
@@ -835,16 +864,16 @@ Section Operators.
     match goal with |- context [dict_of ?e] =>
       assert (Hfin : forall name,
                  (x <- Ok (new_class (PStr name) (PTuple [ref (s2p "Structure")]) (dict_of e)) ;; decode_newclass k x) =
-                 Ok (derived_stmt name k (filter (fun nm => negb (str_in (fst nm) ns)) (k_all k))
+                 Ok (derived_stmt name ign (filter (fun nm => negb (str_in (fst nm) ns)) (k_all k))
                                   (filter (fun x => negb (str_in x ns)) (k_required k))))
     end.
     { intro name. cbn [bind]. rewrite decode_newclass_eq. rewrite <- app_assoc. cbn [app].
       rewrite decode_core, decode_required, (decode_flds_end _ _ Hres' Hhas').
       cbn [skeys map decode_entries bind]. f_equal. apply stmt_of_eq; unfold with_ignore.
-      - destruct (k_ignore_none k); cbn [dec_set_ignore dec_set_required dc_members];
+      - destruct ign; cbn [dec_set_ignore dec_set_required dc_members];
           rewrite dc_members_fold; cbn [dec_empty dc_members]; rewrite app_nil_r; exact (members_of_filter k (fun n => negb (str_in n ns)) Hnd).
-      - destruct (k_ignore_none k); reflexivity.
-      - destruct (k_ignore_none k); cbn [dec_set_ignore dec_set_required dc_ignore]; rewrite ?dc_ignore_fold; reflexivity. }
+      - destruct ign; reflexivity.
+      - destruct ign; cbn [dec_set_ignore dec_set_required dc_ignore]; rewrite ?dc_ignore_fold; reflexivity. }
     destruct cn as [|a t]; cbn [py_truthy length Nat.eqb negb bind]; rewrite ?heap_name;
       cbn [bind py_format name_or]; apply Hfin.
   Qed.
@@ -866,10 +895,10 @@ Section Operators.
     assert (Hin : forall n, In n ns -> In n (field_names k)).
     { intros n Hn. rewrite forallb_forall in Hall. apply alist_has_In. apply Hall. exact Hn. }
     rewrite fold_set_dedup.
-    2: { intros n Hn. left. pose proof (core_fresh k n (Hres n (Hin n Hn))) as Hc. unfold alist_has in Hc.
-         destruct (alist_get (own_core k) n); [discriminate|reflexivity]. }
-    rewrite (filter_all (fun n => negb (alist_has (own_core k) n)) ns).
-    2: { apply forallb_forall. intros n Hn. rewrite (core_fresh k n (Hres n (Hin n Hn))). reflexivity. }
+    2: { intros n Hn. left. pose proof (core_fresh k ign n (Hres n (Hin n Hn))) as Hc. unfold alist_has in Hc.
+         destruct (alist_get (init_core k ign) n); [discriminate|reflexivity]. }
+    rewrite (filter_all (fun n => negb (alist_has (init_core k ign) n)) ns).
+    2: { apply forallb_forall. intros n Hn. rewrite (core_fresh k ign n (Hres n (Hin n Hn))). reflexivity. }
     fold (fld_entries (dedup_str ns)).
     assert (Hres' : forall n, In n (dedup_str ns) -> reserved n = false).
     { intros n Hn. apply Hres, Hin. apply In_dedup_str. exact Hn. }
@@ -885,25 +914,25 @@ Section Operators.
     match goal with |- context [dict_of ?e] =>
       assert (Hfin : forall name,
                  (x <- Ok (new_class (PStr name) (PTuple [ref (s2p "Structure")]) (dict_of e)) ;; decode_newclass k x) =
-                 Ok (derived_stmt name k (pick_members (k_all k) ns) (filter (fun x => str_in x ns) (k_required k))))
+                 Ok (derived_stmt name ign (pick_members (k_all k) ns) (filter (fun x => str_in x ns) (k_required k))))
     end.
     { intro name. cbn [bind]. rewrite decode_newclass_eq. rewrite <- app_assoc.
       rewrite decode_core, (decode_flds _ _ _ Hres' Hhas'), decode_required.
       cbn [skeys map decode_entries bind]. f_equal. apply stmt_of_eq; unfold with_ignore.
-      - destruct (k_ignore_none k); cbn [dec_set_ignore dc_members];
+      - destruct ign; cbn [dec_set_ignore dc_members];
           rewrite dc_members_fold; cbn [dec_set_required dec_empty dc_members]; rewrite app_nil_r; reflexivity.
-      - destruct (k_ignore_none k); cbn [dec_set_ignore dc_required]; rewrite dc_required_fold; reflexivity.
-      - destruct (k_ignore_none k); cbn [dec_set_ignore dc_ignore]; rewrite ?dc_ignore_fold; reflexivity. }
+      - destruct ign; cbn [dec_set_ignore dc_required]; rewrite dc_required_fold; reflexivity.
+      - destruct ign; cbn [dec_set_ignore dc_ignore]; rewrite ?dc_ignore_fold; reflexivity. }
     destruct cn as [|a t]; cbn [py_truthy length Nat.eqb negb bind]; rewrite ?heap_name;
       cbn [bind py_format name_or]; apply Hfin.
   Qed.
 
   Lemma omit_model_eq ns cname :
-    omit_model ns (derived_name (OpOmit ns) cname k) = derive_stmt k (OpOmit ns) cname.
+    omit_model ns (derived_name (OpOmit ns) cname k) = derive_stmt inh k (OpOmit ns) cname.
   Proof. reflexivity. Qed.
 
   Lemma pick_model_eq ns cname :
-    pick_model ns (derived_name (OpPick ns) cname k) = derive_stmt k (OpPick ns) cname.
+    pick_model ns (derived_name (OpPick ns) cname k) = derive_stmt inh k (OpPick ns) cname.
   Proof. reflexivity. Qed.
 
   Lemma name_or_given prefix cname :
@@ -919,7 +948,7 @@ Section Operators.
   Theorem Structure_omit_src_is_model : forall ns cname,
       name_given cname = true ->
       (x <- Structure_omit h (ref o_clazz) (PTuple (map PStr ns)) (class_name_kw cname) ;; decode_newclass k x) =
-      derive_stmt k (OpOmit ns) cname.
+      derive_stmt inh k (OpOmit ns) cname.
   Proof.
     intros ns cname Hg. unfold class_name_kw. rewrite Structure_omit_src, (name_or_given _ _ Hg).
     apply omit_model_eq.
@@ -928,7 +957,7 @@ Section Operators.
   Theorem Structure_pick_src_is_model : forall ns cname,
       name_given cname = true ->
       (x <- Structure_pick h (ref o_clazz) (PTuple (map PStr ns)) (class_name_kw cname) ;; decode_newclass k x) =
-      derive_stmt k (OpPick ns) cname.
+      derive_stmt inh k (OpPick ns) cname.
   Proof.
     intros ns cname Hg. unfold class_name_kw. rewrite Structure_pick_src, (name_or_given _ _ Hg).
     apply pick_model_eq.
@@ -970,7 +999,7 @@ Section Operators.
   Theorem Omit_src_is_model : forall b ns cname,
       name_given cname = true ->
       (x <- OmitMeta_getitem h (op_class (OpOmit ns)) (sel_arg b ns cname) ;; decode_newclass k x) =
-      derive_stmt k (OpOmit ns) cname.
+      derive_stmt inh k (OpOmit ns) cname.
   Proof.
     intros b ns cname Hg. rewrite OmitMeta_src, <- omit_model_eq. f_equal.
     destruct cname as [[|a t]|]; [discriminate|reflexivity|reflexivity].
@@ -979,7 +1008,7 @@ Section Operators.
   Theorem Pick_src_is_model : forall b ns cname,
       name_given cname = true ->
       (x <- PickMeta_getitem h (op_class (OpPick ns)) (sel_arg b ns cname) ;; decode_newclass k x) =
-      derive_stmt k (OpPick ns) cname.
+      derive_stmt inh k (OpPick ns) cname.
   Proof.
     intros b ns cname Hg. rewrite PickMeta_src, <- pick_model_eq. f_equal.
     destruct cname as [[|a t]|]; [discriminate|reflexivity|reflexivity].
@@ -990,12 +1019,12 @@ Section Operators.
      whereas [derived_name] keeps the empty name. *)
   Theorem Omit_src_empty_name : forall b ns,
       (x <- OmitMeta_getitem h (op_class (OpOmit ns)) (sel_arg b ns (Some [])) ;; decode_newclass k x) =
-      derive_stmt k (OpOmit ns) None.
+      derive_stmt inh k (OpOmit ns) None.
   Proof. intros b ns. rewrite OmitMeta_src, <- omit_model_eq. reflexivity. Qed.
 
   Theorem Pick_src_empty_name : forall b ns,
       (x <- PickMeta_getitem h (op_class (OpPick ns)) (sel_arg b ns (Some [])) ;; decode_newclass k x) =
-      derive_stmt k (OpPick ns) None.
+      derive_stmt inh k (OpPick ns) None.
   Proof. intros b ns. rewrite PickMeta_src, <- pick_model_eq. reflexivity. Qed.
 End Operators.
 
@@ -1003,9 +1032,10 @@ End Operators.
 
 Section NotStructure.
   Variable k : klass.
+  Variable inh : option bool.
   Variables pre post : list (pystr * pyval).
   Hypothesis Hns : k_is_struct k = false.
-  Notation h := (klass_heap k pre post).
+  Notation h := (klass_heap k inh pre post).
 
   Ltac guard_steps :=
     repeat (progress (
@@ -1040,11 +1070,11 @@ Definition run_operator (h : heap) (o : op) (as_list : bool) (cname : option pys
   | OpPick ns => PickMeta_getitem h (op_class o) (sel_arg as_list ns cname)
   end.
 
-Theorem operators_src_is_model : forall k pre post o as_list cname,
+Theorem operators_src_is_model : forall k inh pre post o as_list cname,
     others_ok pre = true -> others_ok post = true -> src_ok k = true -> op_ok k o cname = true ->
-    (x <- run_operator (klass_heap k pre post) o as_list cname ;; decode_newclass k x) = derive_stmt k o cname.
+    (x <- run_operator (klass_heap k inh pre post) o as_list cname ;; decode_newclass k x) = derive_stmt inh k o cname.
 Proof.
-  intros k pre post o b cname Hpre Hpost Hsrc Hop. destruct o as [| | |ns|ns]; cbn [run_operator op_ok] in *.
+  intros k inh pre post o b cname Hpre Hpost Hsrc Hop. destruct o as [| | |ns|ns]; cbn [run_operator op_ok] in *.
   - apply Partial_src_is_model; assumption.
   - apply AllFieldsRequired_src_is_model; assumption.
   - apply Extend_src_is_model; assumption.
@@ -1052,16 +1082,17 @@ Proof.
   - apply Pick_src_is_model; assumption.
 Qed.
 
-(* the model's [derive] IS: the source's operator, then StructMeta.__new__ ([define]) on the class dict it built *)
+(* the model's [derive] IS: the source's operator, then StructMeta.__new__ ([define]) on the class dict it built;
+   the class object's `_ignore_none` attribute is what its own body or its bases in g say *)
 Theorem derive_is_source_then_define : forall re_match e gd g k pre post o as_list cname,
     others_ok pre = true -> others_ok post = true -> src_ok k = true -> op_ok k o cname = true ->
     derive re_match e gd g k o cname =
-    (x <- run_operator (klass_heap k pre post) o as_list cname ;;
+    (x <- run_operator (klass_heap k (bases_ignore_none g k) pre post) o as_list cname ;;
      s <- decode_newclass k x ;; define re_match e gd g s).
 Proof.
   intros re_match e gd g k pre post o b cname Hpre Hpost Hsrc Hop. unfold derive.
-  rewrite <- (operators_src_is_model k pre post o b cname Hpre Hpost Hsrc Hop).
-  destruct (run_operator (klass_heap k pre post) o b cname); reflexivity.
+  rewrite <- (operators_src_is_model k (bases_ignore_none g k) pre post o b cname Hpre Hpost Hsrc Hop).
+  destruct (run_operator (klass_heap k (bases_ignore_none g k) pre post) o b cname); reflexivity.
 Qed.
 
 (* ------------------------------------------------------------------ the side conditions are satisfiable *)
@@ -1085,7 +1116,7 @@ Definition ex_foo : klass :=
 (* the rest of Foo.__dict__: __module__, _required, the field objects, _additional_properties, ... *)
 Definition ex_pre : list (pystr * pyval) :=
   [(s2p "__module__", PStr (s2p "m")); (s2p "b", fld_ref (s2p "b")); (n_required, dv_names [s2p "a"]);
-   (s2p "a", fld_ref (s2p "a"))].
+   (n_ignore_none, PBool true); (s2p "a", fld_ref (s2p "a"))].
 Definition ex_post : list (pystr * pyval) :=
   [(s2p "_additional_properties", PBool false); (s2p "_constants", PDict []); (s2p "_field_by_name", PDict [])].
 
@@ -1093,16 +1124,41 @@ Example side_conditions_satisfiable :
   others_ok ex_pre = true /\ others_ok ex_post = true /\ src_ok ex_foo = true /\ defaults_normal ex_foo = true /\
   op_ok ex_foo (OpPick [s2p "c"; s2p "a"; s2p "c"]) (Some (s2p "P")) = true /\
   (* and the two sides really compute a class statement there *)
-  is_ok (derive_stmt ex_foo (OpPick [s2p "c"; s2p "a"; s2p "c"]) (Some (s2p "P"))) = true /\
-  is_ok (x <- run_operator (klass_heap ex_foo ex_pre ex_post) OpAllRequired false None ;; decode_newclass ex_foo x) = true.
+  is_ok (derive_stmt None ex_foo (OpPick [s2p "c"; s2p "a"; s2p "c"]) (Some (s2p "P"))) = true /\
+  is_ok (x <- run_operator (klass_heap ex_foo None ex_pre ex_post) OpAllRequired false None ;; decode_newclass ex_foo x) = true.
 Proof. repeat split; vm_compute; reflexivity. Qed.
+
+(* class Sub(Base): a: Integer; k = Constant(5)   with   class Base(Structure): _ignore_none = True *)
+Definition ex_sub_stmt : classstmt :=
+  {| s_name := s2p "Sub"; s_bases := [n_Structure];
+     s_members := [(s2p "a", SDecl ex_f_int false None None); (s2p "k", SConst (PNum (NInt 5)))];
+     s_required := None; s_optional := None; s_additional := None; s_ignore_none := None;
+     s_attrs := []; s_keys_of := [] |}.
+
+Definition ex_sub : klass :=
+  Eval vm_compute in
+    match define (fun _ _ => true) [] default_guards genv0 ex_sub_stmt with Ok k => k | Raise _ => builtin [] end.
+
+(* an inherited _ignore_none reaches the derived class, and a Constant member is no obstacle to
+   AllFieldsRequired (it is listed in _required, as in the source) *)
+Example inherited_ignore_none_and_constant :
+  src_ok ex_sub = true /\ k_ignore_none ex_sub = None /\
+  match x <- run_operator (klass_heap ex_sub (Some true) [] []) OpAllRequired false None ;; decode_newclass ex_sub x with
+  | Ok s => s_ignore_none s = Some true /\ s_required s = Some [s2p "a"; s2p "k"]
+  | Raise _ => False
+  end /\
+  match x <- run_operator (klass_heap ex_sub None [] []) OpPartial false None ;; decode_newclass ex_sub x with
+  | Ok s => s_ignore_none s = None
+  | Raise _ => False
+  end.
+Proof. vm_compute. repeat split; reflexivity. Qed.
 
 (* the disagreement on an explicit empty class name, on that class: the source names the class "OmitFoo",
    the hand-written model "" *)
 Example empty_name_disagreement :
-  let src := (x <- run_operator (klass_heap ex_foo ex_pre ex_post) (OpOmit [s2p "c"]) false (Some []) ;;
+  let src := (x <- run_operator (klass_heap ex_foo None ex_pre ex_post) (OpOmit [s2p "c"]) false (Some []) ;;
               decode_newclass ex_foo x) in
-  let model := derive_stmt ex_foo (OpOmit [s2p "c"]) (Some []) in
+  let model := derive_stmt None ex_foo (OpOmit [s2p "c"]) (Some []) in
   match src, model with
   | Ok s, Ok m => s_name s = s2p "OmitFoo" /\ s_name m = [] /\ s_members s = s_members m /\ s_required s = s_required m
   | _, _ => False
@@ -1124,4 +1180,5 @@ Print Assumptions operators_src_not_structure.
 Print Assumptions operators_src_is_model.
 Print Assumptions derive_is_source_then_define.
 Print Assumptions side_conditions_satisfiable.
+Print Assumptions inherited_ignore_none_and_constant.
 Print Assumptions empty_name_disagreement.
